@@ -52,3 +52,12 @@ package balance
 //@ loop 0 invariant [prefix]  forall j int :: 0 <= j && j < old(b.Store.loglen) ==> b.Store.logid[j] == old(b.Store.logid[j]) && b.Store.logamt[j] == old(b.Store.logamt[j])
 //@ loop 0 invariant [amounts] forall j int :: old(b.Store.loglen) <= j && j < b.Store.loglen ==> b.Store.logamt[j] == bigval(credit)
 //@ loop 0 invariant [ids]     b.Store.loglen - old(b.Store.loglen) == rangeidx ==> forall j int :: old(b.Store.loglen) <= j && j < b.Store.loglen ==> b.Store.logid[j] == peers[j - old(b.Store.loglen)].ID
+
+//@ interface balance.Manager.OnClient(node) (err)
+//@ ensures [errkind] !typeis(err, pool.VerifyFailedError)
+//@ modifies nothing
+
+//@ interface balance.Manager.OnUpdate(node, peers) (result, err)
+//@ ensures [errkind] !typeis(err, pool.VerifyFailedError)
+//@ ensures [effect]  effects >= old(effects)
+//@ modifies effects
